@@ -72,6 +72,14 @@ def impl_read(case):
                     want = None
                 if want is not None and [m.bytes() for m in ms] != want:
                     fail = ('text-read-wrong', 'the text %r denotes %d sysex message(s) but %d were read (or with other content)' % (bytes(case).decode('latin1')[:60], len(want), len(ms)))
+        if fail is None and case and case[0] == 0xf0:
+            # binary: the file is a MIDI byte stream; what comes back is its sysex messages, whatever else stands between them
+            try:
+                want = [m.bytes() for m in mido.parser.parse_all(case) if m.type == 'sysex']
+            except Exception:  # noqa: BLE001
+                want = None
+            if want is not None and [m.bytes() for m in ms] != want:
+                fail = ('binary-read-wrong', 'the binary file %r holds %d sysex message(s) but %d were read (or with other content)' % (bytes(case)[:40], len(want), len(ms)))
         if fail is None and case and case[0] != 0xf0:
             # plain text: every byte is a 2-digit hex number, so every maximal run of hex digits has even length
             import re
